@@ -113,6 +113,7 @@ func RunRace(c *Case, unit time.Duration) *RaceResult {
 	}
 	s := cfg.New()
 	handles := make([]*scheduler.ScheduledJob, J)
+	depSlices := newDepSlices(c)
 	enqueue := func(j int) {
 		jb := jobs[j]
 		switch jb.Pace {
@@ -121,10 +122,7 @@ func RunRace(c *Case, unit time.Duration) *RaceResult {
 		case PSleep:
 			time.Sleep(time.Duration(jb.PArg) * unit)
 		}
-		deps := make([]*scheduler.ScheduledJob, len(jb.Deps))
-		for i, d := range jb.Deps {
-			deps[i] = handles[d]
-		}
+		deps := depSlices.get(jb.Deps, handles)
 		handles[j] = s.Enqueue(ctxFor(j), scheduler.Job{Run: body(j), Dependencies: deps})
 	}
 	if c.ConcEnq > 1 {
